@@ -45,7 +45,7 @@ PROPS = {
     "C10": dict(streams=[("C10", 0.7), ("C02", 0.3)], model=["M:classes", "M:levels", "M:paras"], quick=10000, thorough=2000000),
     "C11": dict(streams=[("C11", 0.8), ("STAGE", 0.2)],
                 model=["M:levels", "M:panic", "M:runs", "M:ro", "M:st-explicit", "M:st-neutral", "M:st-levels", "M:nohooks"], quick=1500, thorough=150000,
-                spec_extra=["S:C01", "S:C05", "S:C06", "S:C07", "S:C08"]),
+                spec_extra=["S:C01", "S:C02", "S:C05", "S:C06", "S:C07", "S:C08"]),
     "C12": dict(streams=[("C12", 1.0)], model=["M:classes", "M:levels", "M:paras", "M:basedir", "M:rl", "M:runs", "M:ro"], quick=16000, thorough=3000000,
                 spec_extra=["S:C01", "S:C02", "S:C03", "S:C05", "S:C06", "S:C16"]),
     "C13": dict(streams=[("C13", 0.7), ("C01", 0.2), ("STAGE", 0.1)], model=["M:levels", "M:st-explicit", "M:st-seq", "M:nohooks"], quick=12000, thorough=2000000),
